@@ -206,6 +206,40 @@ nd::harnesses! {
         assert!(live() == 0 && drops() == made());
     }
 
+    /// A borrowed child handed out as `&mut` is a derived object with its OWN clone of the context: safe code can move
+    /// it out of its slot (swap with a stand-alone object of the same type) and drop it, and the parent's reference must
+    /// survive that. (Counts are taken on the parent's context only; the object swapped into the slot has another one.)
+    #[kani::unwind(12)]
+    fn c07_borrowed_child_moved_out_and_dropped() {
+        reset();
+        let v: u32 = nd::any();
+        let lib = std::sync::Arc::new(Pay::new(v));
+        let other = std::sync::Arc::new(Pay::new(!v));
+        let sp: *mut L = Box::into_raw(Box::new(L(Pay::new(1))));
+        {
+            let spare: &'static mut L = unsafe { &mut *sp };
+            let mut parent = trait_obj!((P::new(v), CArc::<Pay>::from(lib.clone())) as BorrowMut);
+            assert!(std::sync::Arc::strong_count(&lib) == 2);
+            let mut moved_out = trait_obj!((spare, CArc::<Pay>::from(other.clone())) as Leaf);
+            {
+                let child = parent.borrow_leaf_mut();
+                core::mem::swap(child, &mut moved_out);
+            }
+            drop(moved_out);
+            assert!(std::sync::Arc::strong_count(&lib) == 2, "the parent still holds its own clone after a derived object is dropped");
+            drop(parent);
+        }
+        assert!(std::sync::Arc::strong_count(&lib) == 1, "after all derived objects are dropped the count is back to its starting value");
+        // the object swapped INTO the slot (holding a clone of `other`) shares the fate of every borrowed-return slot:
+        // it is never dropped (the known finding, not asserted here); release whatever it still holds so that the
+        // leak check of this group sees only what the scenario itself would leak
+        if std::sync::Arc::strong_count(&other) > 1 {
+            unsafe { std::sync::Arc::decrement_strong_count(std::sync::Arc::as_ptr(&other)) };
+        }
+        drop(other);
+        drop(unsafe { Box::from_raw(sp) });
+    }
+
     /// During a by-value call the context is not released before control is back in the caller.
     #[kani::unwind(4)]
     fn c07_consuming_call_keeps_context() {
